@@ -167,6 +167,9 @@ inductive CtlOp where
           (setRwOk : Bool) (rev : Option Nat) (ck : CkEnv)
   | add (addr : String) (takeover : Option Bool) (createOk : Bool) (snapFails : List String)
         (newSnapOk setWoOk : Bool) (ck : CkEnv)
+  | addPre (addr : String) (takeover : Option Bool)
+  | addPost (addr : String) (takeover : Option Bool) (createOk : Bool) (snapFails : List String)
+        (newSnapOk setWoOk : Bool) (ck : CkEnv)
   | remove (addr : String)
   | setMode (addr : String) (m : CMode)
   | verify (addr : String) (rwChain woChain : Option (List String)) (woCkpt : Option String)
@@ -286,32 +289,52 @@ def stepStart (c : Ctl) (addr : String) (createOk : Bool) (size : Nat) (setWoOk 
   | none => (c4.startFront, .failed)
   | some _ => (((c4.updateVolStatus).updateCheckpoint ck).startFront, .ok)
 
-/-- `AddReplica` after `canAdd` let it through -/
-def addAfterCheck (c : Ctl) (addr : String) (createOk : Bool) (snapFails : List String)
+/-- `canAdd`: `none` = refused.  At most one WO replica, unless the newcomer has seen more writes, in
+    which case the WO replica is removed (`takeover` is the answer of `hasGreaterRevisionCount`). -/
+def canAdd (c : Ctl) (addr : String) (takeover : Option Bool) : Option Ctl :=
+  if c.hasReplica addr then none else
+  match c.replicas.find? fun r => r.2 = .wo with
+  | none => some c
+  | some w => if takeover = some true then some (c.removeReplica w.1 CkEnv.none) else none
+
+/-- `factory.Create` returned a backend: it gets the next id -/
+def reserveId (c : Ctl) : Ctl := { c with nextId := c.nextId + 1 }
+
+/-- `addReplicaNoLock` after its `canAdd`: the automatic snapshot everywhere, WO, attach -/
+def attachNew (c : Ctl) (addr : String) (id : Nat) (snapFails : List String)
     (newSnapOk setWoOk : Bool) (ck : CkEnv) : Ctl × CtlOut :=
-  if c.rf = c.replicas.length then (c, .refused) else
-  if !createOk then (c, .failed) else
-  let id := c.nextId
-  let c1 : Ctl := { c with nextId := id + 1 }
   -- snapshot on every non-ERR backend; any failure aborts (nobody is marked)
-  let targets := c1.backends.filter fun b => b.mode ≠ .err
-  let c2 := targets.foldl (fun c b => c.call b.id "Snapshot") c1
+  let targets := c.backends.filter fun b => b.mode ≠ .err
+  let c2 := targets.foldl (fun c b => c.call b.id "Snapshot") c
   if targets.any (fun b => snapFails.contains b.addr) then (c2.closeNew id, .failed) else
   if !newSnapOk then ((c2.call id "Snapshot").closeNew id, .failed) else
   if !setWoOk then ((c2.call id "Snapshot").call id "SetReplicaMode", .failed) else
   (((((c2.call id "Snapshot").call id "SetReplicaMode").attach addr id).updateVolStatus).updateCheckpoint ck, .ok)
 
-/-- `AddReplica` -/
+/-- `AddReplica`, first critical section: `canAdd`, `verifyReplicationFactor`; then the lock is
+    released for `factory.Create` (`.ok` = the call is now inside Create) -/
+def stepAddPre (c : Ctl) (addr : String) (takeover : Option Bool) : Ctl × CtlOut :=
+  match c.canAdd addr takeover with
+  | none => (c, .refused)
+  | some c1 => if c1.rf = c1.replicas.length then (c1, .refused) else (c1, .ok)
+
+/-- `AddReplica`, from the return of `factory.Create` on: the lock is taken again, the replication
+    factor is verified again (fix 8ee11b8), `addReplicaNoLock` repeats `canAdd` and attaches.  Any
+    requests may have been served in between. -/
+def stepAddPost (c : Ctl) (addr : String) (takeover : Option Bool) (createOk : Bool) (snapFails : List String)
+    (newSnapOk setWoOk : Bool) (ck : CkEnv) : Ctl × CtlOut :=
+  if !createOk then (c, .failed) else
+  if c.rf = c.replicas.length then (c.reserveId.closeNew c.nextId, .refused) else
+  match c.canAdd addr takeover with
+  | none => (c.reserveId, .refused)          -- as in the code, the new backend is not closed here
+  | some c1 => attachNew c1.reserveId addr c1.nextId snapFails newSnapOk setWoOk ck
+
+/-- `AddReplica` with nothing served while it is inside `factory.Create` -/
 def stepAdd (c : Ctl) (addr : String) (takeover : Option Bool) (createOk : Bool) (snapFails : List String)
     (newSnapOk setWoOk : Bool) (ck : CkEnv) : Ctl × CtlOut :=
-  if c.hasReplica addr then (c, .refused) else
-  -- canAdd: at most one WO, unless the newcomer has seen more writes
-  match c.replicas.find? fun r => r.2 = .wo with
-  | none => addAfterCheck c addr createOk snapFails newSnapOk setWoOk ck
-  | some w =>
-    if takeover = some true then
-      addAfterCheck (c.removeReplica w.1 CkEnv.none) addr createOk snapFails newSnapOk setWoOk ck
-    else (c, .refused)
+  if (c.stepAddPre addr takeover).2 = .ok
+  then (c.stepAddPre addr takeover).1.stepAddPost addr takeover createOk snapFails newSnapOk setWoOk ck
+  else c.stepAddPre addr takeover
 
 /-- the chain comparison of `VerifyRebuildReplica`: the members from the latest snapshot down to
     the WO replica's checkpoint must coincide; a chain too short to hold them is refused -/
@@ -416,6 +439,8 @@ def step (c0 : Ctl) (op : CtlOp) : Ctl × CtlOut :=
   | .register r signalOk alive elected => stepRegister c r signalOk alive elected
   | .start addr createOk size setWoOk clone setRwOk rev ck => stepStart c addr createOk size setWoOk clone setRwOk rev ck
   | .add addr takeover createOk snapFails newSnapOk setWoOk ck => stepAdd c addr takeover createOk snapFails newSnapOk setWoOk ck
+  | .addPre addr takeover => stepAddPre c addr takeover
+  | .addPost addr takeover createOk snapFails newSnapOk setWoOk ck => stepAddPost c addr takeover createOk snapFails newSnapOk setWoOk ck
   | .remove addr => (c.removeReplica addr CkEnv.none, .ok)
   | .setMode addr m => if m = .wo then (c, .refused) else (c.setMode addr m, .ok)
   | .verify addr rwChain woChain woCkpt rev setRwOk setRevOk ck => stepVerify c addr rwChain woChain woCkpt rev setRwOk setRevOk ck
